@@ -2,6 +2,7 @@
 package main
 
 import (
+	"math"
 	"fmt"
 	"math/bits"
 	"sort"
@@ -292,6 +293,20 @@ func nValues(l, capN int) []int {
 	return o
 }
 
+// iterNValues: the counts passed to the iterators - nValues plus counts at the ends of the int range
+// (a caller asking for "all of them" passes a huge n; pos + n must not be computed carelessly)
+func iterNValues(l, capN int) []int {
+	return append(nValues(l, capN), math.MaxInt32, math.MaxInt-3, math.MaxInt-1, math.MaxInt, math.MinInt, math.MinInt+1, -2)
+}
+
+func addIdx(gi, nv, ln int) int {
+	k := nv % 5
+	if k < 0 {
+		k += 5
+	}
+	return (gi + k + 2) % ln
+}
+
 // ---------------- 64-bit layer ----------------
 
 func words(quick bool) []uint64 {
@@ -378,11 +393,11 @@ func layer64(r *ev.Run) {
 						}
 						for ii := range its {
 							it := &its[ii]
-							for _, nv := range nValues(l, 64) {
+							for _, nv := range iterNValues(l, 64) {
 								for pi, pos := range []int{0, 3} {
 									add := it.adds[0]
 									if pi == 1 {
-										add = it.adds[(gi+nv+2)%len(it.adds)]
+										add = it.adds[addIdx(gi, nv, len(it.adds))]
 									}
 									n++
 									bad := checkIter(it, mem, func(size, pos int, add int64, nn int) (int, []int64) { return it.run64(b, size, pos, add, nn) }, pos, add, nv)
@@ -645,11 +660,11 @@ func layer1024(r *ev.Run) {
 						r.Violate(ev.Violation{Signature: "bit1024: Len/NLen wrong", Scenario: "bit1024", What: fmt.Sprintf("members %v…: Len=%d NLen=%d want %d", head(mem), b.Len(), b.NLen(), l), Replay: map[string]interface{}{"members": mem}})
 					}
 					for _, it := range its1024 {
-						for _, nv := range nValues(l, 1024) {
+						for _, nv := range iterNValues(l, 1024) {
 							for pi, pos := range []int{0, 3} {
 								add := it.adds[0]
 								if pi == 1 {
-									add = it.adds[(gi+nv+2)%len(it.adds)]
+									add = it.adds[addIdx(gi, nv, len(it.adds))]
 								}
 								n++
 								bad := checkIter(it, mem, func(size, pos int, add int64, nn int) (int, []int64) { return it.run1024(b, size, pos, add, nn) }, pos, add, nv)
@@ -828,7 +843,7 @@ func algebra(r *ev.Run) {
 
 func main() {
 	r := ev.Start("C08")
-	r.Rule("structured exhaustive families: 64-bit words (popcount<=2, >=62, all intervals, every 16-bit lane pattern and complement) through all 10 iterators and 8 GetN forms with n in {-1,0,1,2,l-1,l,l+1,64,65}, two (pos,add) settings, and sparse thresholds popcount-1/popcount/popcount+1/9 so that both traversal branches run on every word; 1024-bit bitmaps (subsets of a 12-index boundary alphabet, complements, per-word class vectors) through 8 iterators and 6 GetN forms under thresholds 0/2/9/64; Set/Unset over int16/int32 indices; And/Or/Reverse/OrThenReverse/Equal on all pairs of a subfamily; model = boolean array; distinct = (iterator, branch/threshold, n<Len, verdict) classes")
+	r.Rule("structured exhaustive families: 64-bit words (popcount<=2, >=62, all intervals, every 16-bit lane pattern and complement) through all 10 iterators and 8 GetN forms with n in {-1,0,1,2,l-1,l,l+1,64,65, MaxInt32, MaxInt-3..MaxInt, MinInt, MinInt+1, -2}, two (pos,add) settings, and sparse thresholds popcount-1/popcount/popcount+1/9 so that both traversal branches run on every word; 1024-bit bitmaps (subsets of a 12-index boundary alphabet, complements, per-word class vectors) through 8 iterators and 6 GetN forms under thresholds 0/2/9/64; Set/Unset over int16/int32 indices; And/Or/Reverse/OrThenReverse/Equal on all pairs of a subfamily; model = boolean array; distinct = (iterator, branch/threshold, n<Len, verdict) classes")
 	r.Assume("bit i of a Bit64 is 1<<i (the documented word layout); bitmaps are otherwise built with Set* and observed with GetNAsI16(1024)")
 	if r.Want("bit64") {
 		layer64(r)
